@@ -111,10 +111,12 @@ pub struct Goal<T> {
     pub scale: Option<T>,
     /// per-goal override of the pow encoding
     pub pow: Option<crate::smt::PowEnc>,
+    /// if set: of the declared cuts, apply only those whose name starts with one of these prefixes
+    pub only_cuts: Option<Vec<String>>,
 }
 
 pub fn goal<T: Scalar>(name: impl Into<String>, lhs: T, rel: Rel, rhs: T) -> Goal<T> {
-    Goal { name: name.into(), rel, lhs, rhs, scale: None, pow: None }
+    Goal { name: name.into(), rel, lhs, rhs, scale: None, pow: None, only_cuts: None }
 }
 
 /// evaluate a goal natively: Some(message) if violated beyond `tol` (relative)
